@@ -51,9 +51,9 @@ fn c16_parse_change_data_any_bytes() {
 #[kani::stub(std::vec::Vec::<T>::with_capacity, stubs::with_capacity_stub)]
 #[kani::stub(std::vec::Vec::<T>::reserve, stubs::reserve_stub)]
 fn c17_change_cursor_bounds() {
-    let raw: [u8; 24] = kani::any();
+    let raw: [u8; 16] = kani::any();
     let n: usize = kani::any();
-    kani::assume(n <= 24);
+    kani::assume(n <= 16);
     let mut c = ChangeCursor::new(&raw[..n]);
     let skip: usize = kani::any();
     let r0 = c.skip(skip);
